@@ -272,6 +272,71 @@ theorem C11_event_method_exists_counterexample : ¬ C11_event_method_exists := b
   revert this
   decide
 
+/-! ### `to_<state>()` exists for every state iff auto transitions are enabled, and ends in that state -/
+
+theorem reach_auto (attr : Name) (ov auto : Bool) (ops : List Op) : (Reach attr ov auto ops).auto = auto :=
+  (run_consts ops _).auto
+
+/-- **C11, `to_<state>`.** Every history whose own `add_transition` / `remove_transition` calls do not
+name events `to_…`.  Without auto transitions the machine has no event named `to_…` at all.  With
+auto transitions every registered state `d` has its event `to_<d>` (`to_<attr>_<d>` for a custom
+`model_attribute`), and from whatever registered state a model is in, firing it returns True and
+leaves the model in `d`.  (That the event's method is on the model: `C11_event_method_exists_partial`.) -/
+theorem C11_to_iff_auto (attr : Name) (ov auto : Bool) (ops : List Op) (ha : AttrOK attr) (hf : OpsFresh ops)
+    (hu : UserEvents ops) :
+    (auto = false → ∀ e ∈ keys (Reach attr ov auto ops).events, ¬ sTo <+: e) ∧
+    (auto = true → ∀ d ∈ (Reach attr ov auto ops).states,
+      toName attr d ∈ keys (Reach attr ov auto ops).events ∧
+      ∀ m s, (Reach attr ov auto ops).stateOf m = some s →
+        (fire (Reach attr ov auto ops) m (toName attr d)).2 = .ok true ∧
+        (fire (Reach attr ov auto ops) m (toName attr d)).1.stateOf m = some d) := by
+  have hi := reach_inv attr ov auto ops ha hf
+  have hau : AutoInv (Reach attr ov auto ops) := AutoInv.run ops _ (AutoInv.new attr ov auto) hu
+  have hattr := reach_attr attr ov auto ops
+  have hauto := reach_auto attr ov auto ops
+  generalize Reach attr ov auto ops = hm at *
+  subst hattr
+  refine ⟨?_, ?_⟩
+  · intro hfalse e he hp
+    cases hk : kget e hm.events with
+    | none => exact ((kget_none_iff e hm.events).mp hk) he
+    | some ts =>
+      have := (hau.shape e ts hk hp).1
+      rw [hauto, hfalse] at this; cases this
+  · intro htrue d hd
+    rw [← hauto] at htrue
+    refine ⟨?_, ?_⟩
+    · obtain ⟨ts, hk, _⟩ := hau.cover htrue d hd d hd
+      exact mem_keys_of_kget hk
+    · intro m s hst
+      unfold HM.stateOf at hst
+      cases hk : kget m hm.objs with
+      | none => simp [hk] at hst
+      | some o =>
+        simp only [hk] at hst
+        have hmo : (m, o) ∈ hm.objs := kget_mem _ _ _ hk
+        have hs : s ∈ hm.states := by
+          obtain ⟨c, hc⟩ := (hi.objs m o hmo).st
+          have := (hi.objs m o hmo).inst _ _ hc
+          have h2 : o.stateOf hm.attr = some c := by simp [Obj.stateOf, Obj.getattr, hc]
+          rw [h2] at hst; injection hst with hst; subst hst; exact this.2
+        obtain ⟨ts, hke, t, ht, hts⟩ := hau.cover htrue s hs d hd
+        obtain ⟨_, d', _, hde, hall⟩ := hau.shape _ ts hke (toName_prefix _ _)
+        have hdd : d = d' := toName_inj _ _ _ hde
+        subst hdd
+        unfold fire
+        simp only [hk, hst, hs, not_true_eq_false, if_false, hke]
+        cases hf' : ts.filter (fun t => t.source = s) with
+        | nil =>
+          have : t ∈ ts.filter (fun t => t.source = s) := List.mem_filter.mpr ⟨ht, by simpa using hts⟩
+          rw [hf'] at this; cases this
+        | cons c cs =>
+          have hc : c ∈ ts := (List.mem_filter.mp (by rw [hf']; exact List.mem_cons_self ..)).1
+          obtain ⟨hcd, hcp, _⟩ := hall c hc
+          simp only [List.find?_cons, hcp, hcd, hd, if_true]
+          refine ⟨trivial, ?_⟩
+          simp [HM.stateOf, kget_kset_self, Obj.stateOf, getattr_setattr_self]
+
 /-! ### get_triggers / get_transitions against the events table -/
 
 theorem kget_iff_mem_nodup {β : Type} {k : Name} {v : β} {l : List (Name × β)} (hn : (keys l).Nodup) :
